@@ -83,6 +83,8 @@ inductive XE where
   | attr (e : XE) (f : String)         -- u.started / u.result / … of a Usage
   | index (e : XE) (i : Nat)           -- client_version[0] / client_version[1]
   | mul (a b : XE)
+  /-- `sum(app.count_listeners() for app in self._apps.values())` (Server.dump_stats): the subscribed connections -/
+  | listenerCount
   /-- `SidedMessage(side=…, phase=…, body=…, server_rx=…, msg_id=…)` -/
   | mkMsg (side phase body rx id : XE)
   | floordiv (a b : XE)
@@ -216,6 +218,8 @@ def eval (ctx : Ctx) (s : Sys) (env : Env) : XE → SV
     if a = "_app_id" then .str ctx.app else if a = "_mailbox_id" then .str ctx.mailbox
     else if a = "_usage_db" then .bool s.cfg.usage
     else if a = "_blur_usage" then (match s.blurTicks with | some B => .int B | Option.none => .none)   -- in ticks, like the times
+    -- `Server._blur_usage` as `dump_stats` STORES it (seconds, no arithmetic with times)
+    else if a = "_blur_usage_raw" then (match s.cfg.blur with | some b => .int b | Option.none => .none)
     else .none
   | .msgField e f => (match eval ctx s env e with
     | .msg side phase body rx id =>
@@ -225,6 +229,7 @@ def eval (ctx : Ctx) (s : Sys) (env : Env) : XE → SV
   | .index e i => (match eval ctx s env e with
     | .cv impl version => if i = 0 then optStrSV impl else if i = 1 then optStrSV version else .none
     | _ => .none)
+  | .listenerCount => .int ((s.conns.filter (·.listening)).length : Nat)
   | .mkMsg side phase body rx id =>
     (match eval ctx s env side, svVal (eval ctx s env phase), svVal (eval ctx s env body), eval ctx s env rx,
         svVal (eval ctx s env id) with
@@ -284,6 +289,26 @@ def getMessagesStmt (s : Sys) (args : List SV) : ExecRes :=
   match args with
   | [.str app, .str mb] =>
     .ok s (.rows (((s.db.messagesOf app mb).mergeSort (fun a b => decide (a.rx ≤ b.rx))).map .msg))
+  | _ => .raised s "TypeError"
+
+/-- `DELETE FROM current` -/
+def dumpDeleteStmt (s : Sys) (args : List SV) : ExecRes :=
+  match args with
+  | [] => .ok (s.modUdb (fun d => { d with current := [] })) .none
+  | _ => .raised s "TypeError"
+
+def optNatOfSV : SV → Option (Option Nat)
+  | .none => some Option.none
+  | .int i => some (some (asNat i))
+  | _ => Option.none
+
+/-- the INSERT of the one status row -/
+def dumpInsertStmt (s : Sys) (args : List SV) : ExecRes :=
+  match args with
+  | [.int rebooted, .int now, b, .int k] =>
+    (match optNatOfSV b with
+     | some blur => .ok (s.modUdb (fun d => { d with current := d.current ++ [⟨rebooted, now, blur, asNat k⟩] })) .none
+     | Option.none => .raised s "TypeError")
   | _ => .raised s "TypeError"
 
 /-- **the statement table**: the model primitive (Store.lean) each named statement of server.py is; a SELECT gives its
@@ -398,6 +423,8 @@ def stmtSem (s : Sys) (stmt : String) (args : List SV) : ExecRes :=
      | _ => .raised s "TypeError")
   else if stmt = "AppNamespace_log_client_version__insert_client_versions_0" then logClientStmt s args
   else if stmt = "Mailbox_get_messages__select_messages_0" then getMessagesStmt s args
+  else if stmt = "Server_dump_stats__delete_current_0" then dumpDeleteStmt s args
+  else if stmt = "Server_dump_stats__insert_current_0" then dumpInsertStmt s args
   else .raised s "NotInTable"
 
 /-- what `cursor.<fetch>` of a statement's result is -/
